@@ -1,6 +1,7 @@
 // h_string.cpp - qstring utilities against straightforward reference definitions, with exact-size
 // heap buffers and guard bytes.  Mode C19.
 #include "common/vf.hpp"
+#include "common/callers.hpp"
 #include <cerrno>
 extern "C" {
 #include "qlibc.h"
@@ -27,7 +28,7 @@ std::string ref_replace(char method, const std::string &src, const std::string &
     return o;
 }
 
-uint64_t g_checked = 0;
+std::atomic<uint64_t> g_checked{0};
 
 void chk_trim(Ctx &c, const std::string &s) {
     { HB b(s); char *r = qstrtrim(b.p); std::string w = ref_trim_tail(ref_trim_head(s)); if (r != b.p || b.str() != w) c.fail(FUNC, "string:trim", "qstrtrim(%s) = %s, expected %s", hexs(s).c_str(), hexs(b.str()).c_str(), hexs(w).c_str()); }
@@ -180,41 +181,62 @@ std::string gen_str(Src &s, const char *alpha, size_t alen, size_t maxlen) {
 }
 }  // namespace
 
+static bool g_conc_only = false;
 bool vf_configure(Ctx &c) {
     if (c.mode != "C19") return false;
     c.deciding = FUNC | MEM | CRASH | HANG; c.noteonly = LEAK;
+    g_conc_only = getenv("VF_CONC_ONLY") != nullptr;
     return true;
 }
 
-void run_case(Src &s, Ctx &c) {
+// decodes one routine check from the choice source; the returned job performs it (on any thread)
+Job gen_job(Src &s, Ctx &c, bool *nt, const char **tag) {
     static const char A_TRIM[] = " \t\r\nab\x80", A_TXT[] = "abAB,|: \"'Xx\n\r\t\x80z", A_REP[] = "abaXbaa";
     int tgt = (int)s.pick({3, 2, 4, 4, 2, 2, 4, 4, 1});
     switch (tgt) {
-        case 0: { std::string x = gen_str(s, A_TRIM, 7, 60); c.op("trim family on %s", hexs(x).c_str()); chk_trim(c, x); c.nontrivial = !x.empty() && (blank(x.front()) || blank(x.back())); c.tag("trim"); break; }
-        case 1: { std::string x = gen_str(s, "\"'ab[]", 6, 30); char h = "\"'[a"[s.range(0, 3)], t = "\"']a"[s.range(0, 3)]; c.op("unchar(%s,%c,%c)", hexs(x).c_str(), h, t); chk_unchar(c, x, h, t); c.nontrivial = x.size() >= 2 && x.front() == h && x.back() == t; c.tag("unchar"); break; }
+        case 0: { std::string x = gen_str(s, A_TRIM, 7, 60); c.op("trim family on %s", hexs(x).c_str()); *nt = !x.empty() && (blank(x.front()) || blank(x.back())); *tag = "trim"; return [x](Ctx &k) { chk_trim(k, x); }; }
+        case 1: { std::string x = gen_str(s, "\"'ab[]", 6, 30); char h = "\"'[a"[s.range(0, 3)], t = "\"']a"[s.range(0, 3)]; c.op("unchar(%s,%c,%c)", hexs(x).c_str(), h, t); *nt = x.size() >= 2 && x.front() == h && x.back() == t; *tag = "unchar"; return [x, h, t](Ctx &k) { chk_unchar(k, x, h, t); }; }
         case 2: {
             char method = s.boolean() ? 't' : 's';
             std::string src = gen_str(s, A_REP, 7, 80), tok = gen_str(s, A_REP, 7, 4), word = gen_str(s, "abXYZ", 5, 8);
             if (method == 's' && tok.empty()) tok = "a";            // string mode needs a non-empty search string
-            if (s.chance(1, 20)) { static const char *bad[] = {"xn", "sx", "s", "snr", ""}; const char *m = bad[s.range(0, 4)]; c.op("replace(invalid mode \"%s\")", m); chk_replace_badmode(c, src, m); c.tag("replace_badmode"); break; }
+            if (s.chance(1, 20)) { static const char *bad[] = {"xn", "sx", "s", "snr", ""}; const char *m = bad[s.range(0, 4)]; c.op("replace(invalid mode \"%s\")", m); *nt = false; *tag = "replace_badmode"; return [src, m](Ctx &k) { chk_replace_badmode(k, src, m); }; }
             c.op("replace(%c,%s,%s,%s)", method, hexs(src).c_str(), hexs(tok).c_str(), hexs(word).c_str());
-            chk_replace(c, src, tok, word, method);
-            c.nontrivial = ref_replace(method, src, tok, word) != src; c.tag(method == 't' ? "replace_token" : "replace_string"); break; }
+            *nt = ref_replace(method, src, tok, word) != src; *tag = method == 't' ? "replace_token" : "replace_string";
+            return [src, tok, word, method](Ctx &k) { chk_replace(k, src, tok, word, method); }; }
         case 3: {
             std::string src = gen_str(s, A_TXT, 17, 100);
             bool useN = s.boolean();
             size_t size = (size_t)s.range(1, (long)src.size() + 2);
             size_t nbytes = (size_t)s.range(0, (long)src.size());
             c.op("%s(dst,%zu,%s,%zu)", useN ? "qstrncpy" : "qstrcpy", size, hexs(src).c_str(), nbytes);
-            chk_copy(c, src, size, nbytes, useN);
-            if (s.chance(1, 4) && !src.empty()) chk_copy_overlap(c, src, (size_t)s.range(1, (long)src.size()));
-            c.nontrivial = (useN ? nbytes : src.size()) >= size; c.tag("bounded_copy"); break; }
-        case 4: { std::string x = gen_str(s, "ab<>[]", 6, 40), st = gen_str(s, "<[a", 3, 2), en = gen_str(s, ">]b", 3, 2); c.op("dup_between(%s,%s,%s)", hexs(x).c_str(), hexs(st).c_str(), hexs(en).c_str()); chk_between(c, x, st, en); c.nontrivial = x.find(st) != std::string::npos; c.tag("dup_between"); break; }
-        case 5: { std::string x = gen_str(s, A_TXT, 17, 60); c.op("rev/upper/lower on %s", hexs(x).c_str()); chk_revcase(c, x); c.nontrivial = x.size() >= 2; c.tag("rev_case"); break; }
-        case 6: { std::string x = gen_str(s, "ab,|: ", 6, 60), d = gen_str(s, ",|:", 3, 3); c.op("tok(%s, delimiters %s)", hexs(x).c_str(), hexs(d).c_str()); chk_tok(c, x, d); c.nontrivial = x.find_first_of(d) != std::string::npos && !d.empty(); c.tag("tokenizer"); break; }
-        case 7: { std::string x = gen_str(s, "ab\n\r ", 5, 120); size_t size = (size_t)s.range(2, 40); c.op("gets(%s, size %zu)", hexs(x).c_str(), size); chk_gets(c, x, size); c.nontrivial = x.find_first_of("\r\n") != std::string::npos; c.tag("gets"); break; }
-        default: { std::string x = gen_str(s, "ab% ", 4, 40); long n = s.range(-100000, 100000); c.op("dupf/catf(%s,%ld)", hexs(x).c_str(), n); chk_fmt(c, x, n); c.nontrivial = !x.empty(); c.tag("format"); }
+            size_t shift = (s.chance(1, 4) && !src.empty()) ? (size_t)s.range(1, (long)src.size()) : 0;
+            *nt = (useN ? nbytes : src.size()) >= size; *tag = "bounded_copy";
+            return [src, size, nbytes, useN, shift](Ctx &k) { chk_copy(k, src, size, nbytes, useN); if (shift) chk_copy_overlap(k, src, shift); }; }
+        case 4: { std::string x = gen_str(s, "ab<>[]", 6, 40), st = gen_str(s, "<[a", 3, 2), en = gen_str(s, ">]b", 3, 2); c.op("dup_between(%s,%s,%s)", hexs(x).c_str(), hexs(st).c_str(), hexs(en).c_str()); *nt = x.find(st) != std::string::npos; *tag = "dup_between"; return [x, st, en](Ctx &k) { chk_between(k, x, st, en); }; }
+        case 5: { std::string x = gen_str(s, A_TXT, 17, 60); c.op("rev/upper/lower on %s", hexs(x).c_str()); *nt = x.size() >= 2; *tag = "rev_case"; return [x](Ctx &k) { chk_revcase(k, x); }; }
+        case 6: { std::string x = gen_str(s, "ab,|: ", 6, 60), d = gen_str(s, ",|:", 3, 3); c.op("tok(%s, delimiters %s)", hexs(x).c_str(), hexs(d).c_str()); *nt = x.find_first_of(d) != std::string::npos && !d.empty(); *tag = "tokenizer"; return [x, d](Ctx &k) { chk_tok(k, x, d); }; }
+        case 7: { std::string x = gen_str(s, "ab\n\r ", 5, 120); size_t size = (size_t)s.range(2, 40); c.op("gets(%s, size %zu)", hexs(x).c_str(), size); *nt = x.find_first_of("\r\n") != std::string::npos; *tag = "gets"; return [x, size](Ctx &k) { chk_gets(k, x, size); }; }
+        default: { std::string x = gen_str(s, "ab% ", 4, 40); long n = s.range(-100000, 100000); c.op("dupf/catf(%s,%ld)", hexs(x).c_str(), n); *nt = !x.empty(); *tag = "format"; return [x, n](Ctx &k) { chk_fmt(k, x, n); }; }
     }
+}
+
+void run_case(Src &s, Ctx &c) {
+    bool nt = false; const char *tag = "";
+    if (g_conc_only || s.chance(1, 16)) {
+        // concurrent callers: 2..4 threads, each with 2..5 routine checks on private strings, repeated
+        size_t nth = (size_t)s.range(2, 4); int rounds = (int)s.range(20, 200);
+        std::vector<std::vector<Job>> jobs(nth);
+        for (size_t i = 0; i < nth; i++) { c.op("thread %zu:", i); int nj = (int)s.range(2, 5); for (int j = 0; j < nj; j++) { jobs[i].push_back(gen_job(s, c, &nt, &tag)); c.tag((std::string("concurrent_") + tag).c_str()); } }
+        c.op("the %zu threads run their checks %d times concurrently", nth, rounds);
+        run_concurrent(c, jobs, rounds, "string");
+        c.check_san("string routines called from several threads");
+        c.nontrivial = true; c.tag("concurrent_callers");
+        return;
+    }
+    Job j = gen_job(s, c, &nt, &tag);
+    j(c);
+    c.nontrivial = nt; c.tag(tag);
     c.check_san("string routine");
 }
 
@@ -240,7 +262,7 @@ bool vf_enumerate(Ctx &c, EnumStats &st) {
     if (g_san_reports) c.fail(MEM, g_san_last, "sanitizer report(s) during the enumeration of short strings: %s", g_san_last);
     st.states = st.evaluations;
     st.extra["max_length"] = (uint64_t)L;
-    st.extra["routine_checks"] = g_checked;
+    st.extra["routine_checks"] = g_checked.load();
     st.samples.push_back("all strings of length <= L over {' ',\\t,\\r,\\n,a,0x80} through trim/trim_head/trim_tail/rev/upper/lower");
     st.samples.push_back("all strings over {a,b,X} x search {a,ab,aa,b,aba} x replacement {'',a,XY,aba,b} x modes tn/tr/sn/sr");
     st.samples.push_back("all strings over {a,b,',','|',' '} through qstrtok/qstrtokenizer; over {a,\\n,\\r} through qstrgets with sizes 2..5 and 64");
